@@ -109,6 +109,10 @@ Definition partial_trace_ok (o : xop) (evs : list xevent) : bool :=
   | _, [] => true
   | (XSend (Some _) _ | XSendRaw _ _ | XDisconnect), [XEvClosedQ _ false] => true
   | XReconnect _, [XEvClosedQ _ false] => true
+  (* a Reconnect that has dialled and is about to record / clear the sticky error *)
+  | XReconnect _, [XEvNew _] => true
+  | XReconnect _, [XEvClosedQ _ true; XEvNew _] => true
+  | XReconnect _, [XEvClosedQ s false; XEvClose s'; XEvNew _] => Nat.eqb s s'
   | XReconnect _, _ => disc_trace_ok evs
   | _, _ => false
   end.
